@@ -4,9 +4,9 @@ From Tongo Require Import Model.Client.
 Import ListNotations.
 
 Ltac sred :=
-  cbn [pc reg ch next status broken rq loops wire emitted delivered since
+  cbn [pc reg ch next status broken rq loops wire emitted delivered since pinger psince
        set_pc set_reg set_ch set_next set_status set_broken set_rq set_loops set_wire
-       set_emitted set_delivered set_since fst snd] in *.
+       set_emitted set_delivered set_since set_pinger set_psince fst snd] in *.
 
 Lemma cupd_same {A} (f : nat -> A) i v : cupd f i v i = v.
 Proof. unfold cupd. rewrite Nat.eqb_refl. reflexivity. Qed.
